@@ -169,6 +169,14 @@ impl<V: JwsVerifier> JwtCredentialValidator<V> {
       validation_units_iter.chain(revocation_validation)
     };
 
+    // Without the `revocation-bitmap` feature no `credentialStatus` type is supported.
+    #[cfg(not(feature = "revocation-bitmap"))]
+    let validation_units_iter = {
+      let status_validation =
+        std::iter::once_with(|| JwtCredentialValidatorUtils::check_unsupported_status(credential, options.status));
+      validation_units_iter.chain(status_validation)
+    };
+
     let validation_units_error_iter = validation_units_iter.filter_map(|result| result.err());
     let validation_errors: Vec<JwtValidationError> = match fail_fast {
       FailFast::FirstError => validation_units_error_iter.take(1).collect(),
